@@ -139,19 +139,22 @@ handshakeLoop:
 	recvClientSYN:
 
 		g.log.Debugf("Received client SYN. Sending back.")
-		n = msg.(*PacketSYN).N
+		proposedN := msg.(*PacketSYN).N
 
 		// The sequence space is s = n+1 and is kept in a uint8, so a
 		// window of 255 would wrap s to zero, and a window of zero
 		// could never send anything. A client never proposes either
 		// value, so such a SYN is ignored like any other unexpected
-		// packet.
-		if n == 0 || n == math.MaxUint8 {
+		// packet. It must not replace the window of an earlier valid
+		// SYN either, since a later SYNACK may still complete that
+		// handshake.
+		if proposedN == 0 || proposedN == math.MaxUint8 {
 			g.log.Tracef("Ignoring SYN with invalid window size %d",
-				n)
+				proposedN)
 
 			continue handshakeLoop
 		}
+		n = proposedN
 
 		// Send SYN back
 		syn := &PacketSYN{N: n}
